@@ -360,14 +360,26 @@ func snapshotPath(c *Config, tName string, isStandalone bool) (string, string) {
 	if !filepath.IsAbs(dir) && !isTrimBathBuild {
 		dir = filepath.Join(filepath.Dir(callerFilename), c.snapsDir)
 	}
+	base := filepath.Dir(callerFilename)
+	if isStandalone {
+		// a standalone path is a format string for the ordinal (see constructFilename):
+		// everything else in it is user text and must not be interpreted
+		dir = escapeFormat(dir)
+		base = escapeFormat(base)
+	}
 
 	snapPath := filepath.Join(dir, constructFilename(c, callerFilename, tName, isStandalone))
 	snapPathRel := snapPath
 	if !isTrimBathBuild {
-		snapPathRel, _ = filepath.Rel(filepath.Dir(callerFilename), snapPath)
+		snapPathRel, _ = filepath.Rel(base, snapPath)
 	}
 
 	return snapPath, snapPathRel
+}
+
+// escapeFormat makes s stand for itself when used inside a fmt format string
+func escapeFormat(s string) string {
+	return strings.ReplaceAll(s, "%", "%%")
 }
 
 func constructFilename(c *Config, callerFilename, tName string, isStandalone bool) string {
@@ -382,11 +394,10 @@ func constructFilename(c *Config, callerFilename, tName string, isStandalone boo
 	}
 
 	if isStandalone {
-		filename += "_%d"
+		return escapeFormat(filename) + "_%d" + snapsExt + escapeFormat(c.extension)
 	}
-	filename += snapsExt + c.extension
 
-	return filename
+	return filename + snapsExt + c.extension
 }
 
 func unescapeEndChars(s string) string {
